@@ -72,10 +72,13 @@ func (d *demux) isClosed() bool {
 }
 
 func (d *demux) Chain(filter framesFilter) *demux {
-	if d.isClosed() {
-		panic("demux closed")
-	}
 	next := newDemux()
+	if d.isClosed() {
+		// A frame may still be on its way to a client when the demux is closed (e.g. an inbound
+		// connect arriving while the port is being closed). The chained demux is simply closed too.
+		next.Close()
+		return next
+	}
 	filtered, cancel := d.Frames(0, filter)
 	go func() {
 		defer cancel()
